@@ -75,6 +75,12 @@ def run_property(pid: str, tier: str, seed: int, write_lock=False, verbose=False
             results.append(ex.verify_lemma(lem))
     # model-extraction terms
     solve_wall = discharge(results, budget=budget)
+    xc = None
+    selftest = None
+    if tier == "thorough" and not os.environ.get("VERIF_REPO"):
+        from .run import cross_check
+        xc = cross_check(results, budget=30)
+        selftest = seed_self_test(pid)
     # ground / structural obligations
     ground = []
     for g in P.get("ground", []):
@@ -290,6 +296,7 @@ def run_property(pid: str, tier: str, seed: int, write_lock=False, verbose=False
             "known_findings_hit": [k["id"] for k in known_hits],
             "known_finding_obligations_excluded_from_counts": known_obls,
             "complete": full,
+            "second_solver": xc, "seed_self_test": selftest,
             "bounded": {"note": "bounded stand-ins, NOT counted in obligations/discharged and not proofs",
                         "cases": len(bounded), "held": len([g for g in bounded if g.ok]),
                         "bound": sorted({g.backend for g in bounded}),
@@ -322,6 +329,21 @@ def run_property(pid: str, tier: str, seed: int, write_lock=False, verbose=False
     if n_total == 0:
         print("checker error: zero obligations generated")
         return 3
+    if xc is not None:
+        print(f"second solver: {xc['confirmed']}/{xc['asked']} unsat answers confirmed by another solver, "
+              f"{xc['unconfirmed']} without a second answer, {len(xc['disagreements'])} disagreements")
+        if xc["disagreements"]:
+            print("checker error: solvers disagree on", xc["disagreements"][:5])
+            return 3
+    if selftest is not None:
+        ok = [t for t in selftest if t.get("as_expected")]
+        print(f"seed self-test: {len(ok)}/{len(selftest)} stored changes reported as expected")
+        for t in selftest:
+            if t.get("exit") == 0:
+                print(f"checker error: the check reports that {pid} HOLDS on the seeded change {t['seed']}")
+                return 3
+            if not t.get("as_expected"):
+                print(f"  note: seed {t['seed']}: {t}")
     for cid, path, suffix in violations:
         print(f"VIOLATION property={pid} replay={path}{suffix}")
         print(f"  failed obligation: {cid}")
@@ -337,6 +359,51 @@ def run_property(pid: str, tier: str, seed: int, write_lock=False, verbose=False
             print("UNDECIDED (was discharged on the reference tree):", u)
         return 2
     return 0
+
+
+def seed_self_test(pid: str):
+    """thorough tier: every stored seeded change of this property (a change known to break it while the pinned suite
+    still passes) is applied to a scratch COPY of /repo's working tree and the quick check is run on the copy.
+    Expected: exit 1 (violation), or exit 2 where meta.json says "expected": "undecided".  A seed on which the check
+    reports that the property HOLDS (exit 0) is a soundness alarm."""
+    import glob
+    import shutil
+    import subprocess
+    import tempfile
+    out = []
+    for d in sorted(glob.glob(os.path.join(VERIF, "seeded", pid + "-*"))):
+        patch = os.path.join(d, "patch.diff")
+        if not os.path.exists(patch):
+            continue
+        try:
+            meta = json.load(open(os.path.join(d, "meta.json")))
+        except Exception:
+            meta = {}
+        expected = {"violation": 1, "undecided": 2}.get(meta.get("expected", "violation"), 1)
+        w = tempfile.mkdtemp(prefix="verif_seedcopy_")
+        o = tempfile.mkdtemp(prefix="verif_seedout_")
+        try:
+            shutil.copytree(repo_root(), w, dirs_exist_ok=True,
+                            ignore=shutil.ignore_patterns(".git", "__pycache__", "*.pyc", ".pytest_cache", "site", "docs"))
+            ap = subprocess.run(["git", "apply", patch], cwd=w, capture_output=True, text=True)
+            if ap.returncode != 0:
+                out.append({"seed": os.path.basename(d), "outcome": "patch-does-not-apply-to-this-tree"})
+                continue
+            env = dict(os.environ, VERIF_REPO=w, VERIF_OUT=o, VERIF_TIER="quick", TZ="UTC")
+            p = subprocess.run([sys.executable, "-c",
+                                "import sys; sys.path.insert(0, %r); from pyvc.driver import main; "
+                                "sys.exit(main([%r, '--tier', 'quick']))" % (VERIF, pid)],
+                               env=env, capture_output=True, text=True, timeout=3600)
+            viol = [ln.split("replay=")[0].strip() for ln in p.stdout.splitlines() if ln.startswith("  failed obligation")]
+            out.append({"seed": os.path.basename(d), "exit": p.returncode, "expected_exit": expected,
+                        "as_expected": p.returncode == expected,
+                        "failed_obligations": [v.replace("failed obligation: ", "") for v in viol][:4]})
+        except Exception as e:
+            out.append({"seed": os.path.basename(d), "outcome": f"self-test error: {e!r}"})
+        finally:
+            shutil.rmtree(w, ignore_errors=True)
+            shutil.rmtree(o, ignore_errors=True)
+    return out
 
 
 def safe(s):
@@ -375,8 +442,40 @@ def try_replay(pid, P, r, ob, model):
         return {"status": "no-replay", "detail": f"replay harness error: {e!r}"}
 
 
+def replay_file(path):
+    """./check --replay <replays/x.json>: re-run the check of the property the file belongs to on the current tree and
+    say whether the recorded obligation fails again (exit 1) or not (exit 0); for obligations with a concrete input the
+    native replay harness is part of that run (its outcome is in the rewritten replay file)."""
+    p = path if os.path.isabs(path) else os.path.join(VERIF, path)
+    try:
+        doc = json.load(open(p))
+    except Exception as e:
+        print("cannot read replay file:", e)
+        return 3
+    pid, cid = doc.get("property"), doc.get("obligation")
+    print(f"replay: property {pid}, obligation {cid}")
+    if doc.get("replay"):
+        print("recorded replay outcome:", json.dumps(doc["replay"])[:400])
+    import contextlib
+    import io
+    buf = io.StringIO()
+    with contextlib.redirect_stdout(buf):
+        rc = run_property(pid, "quick", 0)
+    again = [ln for ln in buf.getvalue().splitlines() if ln.strip().startswith("failed obligation:") and cid in ln]
+    if again:
+        print(f"REPLAY: obligation {cid} fails again on this tree")
+        return 1
+    print(f"REPLAY: obligation {cid} does not fail on this tree (check exit {rc})")
+    return 0 if rc in (0, 1, 2) else rc
+
+
 def main(argv):
     import argparse
+    if argv and argv[0] == "--replay":
+        if len(argv) < 2:
+            print("usage: ./check --replay <path>")
+            return 3
+        return replay_file(argv[1])
     ap = argparse.ArgumentParser()
     ap.add_argument("prop")
     ap.add_argument("--tier", default=os.environ.get("VERIF_TIER", "quick"))
